@@ -61,6 +61,21 @@ def _worker(modname, item, conn):
             else:
                 res["mismatches"].append(dict(cex=cex, detail=detail))
         res["candidates"] = []
+        # safety net: an item the engine could not decide (ENCODING-GAP, solver unknown) still gets its sample inputs replayed
+        # natively against the oracle; a concrete disagreement there is a reproducing violation (DESIGN 3.4)
+        if res.get("inconclusive") and hasattr(mod, "fallback"):
+            n = 0
+            try:
+                for cex in mod.fallback(item):
+                    n += 1
+                    bad, detail = mod.replay(cex)
+                    if bad:
+                        key = mod.finding_key(cex) if hasattr(mod, "finding_key") else None
+                        res["violations"].append(dict(cex=cex, detail="[native replay of a sample input; the symbolic item was inconclusive] " + detail, key=key))
+                        break
+            except Exception as ex:
+                res["notes"].append("fallback replay error: %s" % ex)
+            res["notes"].append("item inconclusive: %d sample inputs replayed natively" % n)
         res["wall_s"] = time.time() - t0
         conn.send(("ok", res))
     except BaseException as ex:
